@@ -1,19 +1,67 @@
-"""Replay: show a replay file and, when it carries a concrete case, re-execute it on the real code."""
+"""Replay: build/run the vxreplay binary against the real code; show replay files."""
 import json
 import os
+import shutil
 import subprocess
 
 VERIF = os.path.dirname(os.path.dirname(os.path.abspath(__file__)))
 REPO = os.environ.get("VERIF_REPO", "/repo")
-CRATE = os.path.join(VERIF, "replay")
+SRC = os.path.join(VERIF, "replay")
+CRATE = os.path.join(VERIF, "build", "replay-crate")
 TARGET = os.path.join(VERIF, "build", "replay-target")
+BIN = os.path.join(TARGET, "debug", "vxreplay")
+_built = {}
 
 
-def build(quiet=False):
-    """build the replay binary against REPO's working tree (guard cfg mamba_verif on)"""
-    if not os.path.isdir(CRATE):
-        return 0
-    return 0
+def build():
+    """(re)build vxreplay against REPO's working tree with the hook guard on. Returns (ok, log)."""
+    if REPO in _built:
+        return _built[REPO]
+    if not os.path.exists(os.path.join(REPO, "Cargo.toml")):
+        _built[REPO] = (False, "%s is not a full crate (no Cargo.toml): replay unavailable" % REPO)
+        return _built[REPO]
+    os.makedirs(os.path.join(CRATE, "src"), exist_ok=True)
+    shutil.copy(os.path.join(SRC, "src", "main.rs"), os.path.join(CRATE, "src", "main.rs"))
+    with open(os.path.join(SRC, "Cargo.toml")) as f:
+        toml = f.read().replace('path = "/repo"', 'path = "%s"' % REPO)
+    with open(os.path.join(CRATE, "Cargo.toml"), "w") as f:
+        f.write(toml)
+    shutil.copy(os.path.join(REPO, "Cargo.lock"), os.path.join(CRATE, "Cargo.lock"))
+    env = dict(os.environ, CARGO_NET_OFFLINE="true", RUSTFLAGS="--cfg mamba_verif")
+    p = subprocess.run(["cargo", "build", "--offline", "--manifest-path", os.path.join(CRATE, "Cargo.toml"),
+                        "--target-dir", TARGET], capture_output=True, text=True, env=env)
+    _built[REPO] = (p.returncode == 0, p.stderr[-4000:])
+    return _built[REPO]
+
+
+def call(args, timeout=120):
+    ok, log = build()
+    if not ok:
+        return None, "replay binary did not build:\n" + log
+    try:
+        p = subprocess.run([BIN] + [str(a) for a in args], capture_output=True, text=True, timeout=timeout)
+    except subprocess.TimeoutExpired:
+        return None, "replay timed out"
+    return p.returncode, p.stdout + (("\nSTDERR: " + p.stderr[-2000:]) if p.returncode not in (0, 1) else "")
+
+
+def run_case(case, workdir=None):
+    """case = {kind: lex|spans|pipeline|relex|caret, input: str, annotate: bool, ...} -> (rc, output)"""
+    workdir = workdir or os.path.join(VERIF, "build", "replays")
+    os.makedirs(workdir, exist_ok=True)
+    k = case["kind"]
+    if k in ("lex", "spans", "pipeline"):
+        path = os.path.join(workdir, "case_input.mamba")
+        with open(path, "w", newline="") as f:
+            f.write(case["input"])
+        if k == "pipeline":
+            return call(["pipeline", path, "1" if case.get("annotate") else "0"])
+        return call([k, path])
+    if k == "relex":
+        return call(["relex"])
+    if k == "caret":
+        return call(["caret", case["op"], case["line"], case["pos"], case["offset"]])
+    return None, "unknown case kind " + k
 
 
 def run(path):
@@ -27,4 +75,6 @@ def run(path):
     if not r.get("case"):
         print("no concrete input was produced by the verifier (Verus gives no counterexample): no-failing-input-found")
         return 1
-    return 1
+    rc, out = run_case(r["case"])
+    print("replay of the concrete case on the real code (rc=%s):\n%s" % (rc, out))
+    return 1 if rc != 0 else 0
